@@ -246,35 +246,7 @@ func runC08(c *Ctx) {
 					}
 				})
 			}
-			// no other package-level state in cmd/glyph written or lazily initialised by the compiled request path
-			if cr := c.fn(glyphCmd, "createCompiledRouteHandler"); cr != nil {
-				for _, cl := range innerClosures(cr) {
-					seen := map[*ssa.Function]bool{}
-					var visit func(f *ssa.Function, d int)
-					visit = func(f *ssa.Function, d int) {
-						if f == nil || seen[f] || d > 4 || len(f.Blocks) == 0 || f.Pkg == nil || f.Pkg.Pkg.Path() != modPath+"/cmd/glyph" {
-							return
-						}
-						seen[f] = true
-						eachInstr(f, func(_ *ssa.BasicBlock, _ int, ins ssa.Instruction) {
-							if st, ok := ins.(*ssa.Store); ok {
-								if gg, ok := st.Addr.(*ssa.Global); ok {
-									c.ob("C08-R5", fnKey(f)+"#request-path-writes-global:"+gg.Name(), ins.Pos(), false, "the compiled request path writes package variable "+gg.Name())
-								}
-							}
-							if call, ok := ins.(ssa.CallInstruction); ok {
-								if callName(call) == "sync.Once.Do" || callName(call) == "sync.Pool.Get" || callName(call) == "sync.Pool.Put" {
-									if derivesFrom(call.Common().Args[0], func(v ssa.Value) bool { _, ok := v.(*ssa.Global); return ok }) {
-										c.ob("C08-R5", fnKey(f)+"#request-path-uses-package-level-"+strings.TrimPrefix(callName(call), "sync."), ins.Pos(), false, "the compiled request path keeps state across requests in a package-level sync.Once/Pool: a value computed for one module load (or request) is reused for another")
-									}
-								}
-								visit(staticFn(call), d+1)
-							}
-						})
-					}
-					visit(cl, 0)
-				}
-			}
+			compiledPathGlobalState(c, "C08-R5")
 			c.ob("C08-R5", "cmd/glyph#compiled-request-path-global-state-scanned", token.NoPos, true, "")
 		}
 	}
@@ -566,5 +538,44 @@ func liveRefAudit(c *Ctx, rule string, stores []struct{ rel, typ, field string }
 		if n == 0 {
 			c.undecided("%s: no exported method touches %s.%s", rule, s.typ, s.field)
 		}
+	}
+}
+
+
+// compiledPathGlobalState: the compiled request closure and its cmd/glyph callees (depth 4) neither write
+// package variables nor use a package-level sync.Once / sync.Pool.
+func compiledPathGlobalState(c *Ctx, rule string) {
+	cr := c.fn(glyphCmd, "createCompiledRouteHandler")
+	if cr == nil {
+		return
+	}
+	for _, cl := range innerClosures(cr) {
+		seen := map[*ssa.Function]bool{}
+		var visit func(f *ssa.Function, d int)
+		visit = func(f *ssa.Function, d int) {
+			if f == nil || seen[f] || d > 4 || len(f.Blocks) == 0 || f.Pkg == nil || f.Pkg.Pkg.Path() != modPath+"/cmd/glyph" {
+				return
+			}
+			seen[f] = true
+			for _, a := range f.AnonFuncs {
+				visit(a, d)
+			}
+			eachInstr(f, func(_ *ssa.BasicBlock, _ int, ins ssa.Instruction) {
+				if st, ok := ins.(*ssa.Store); ok {
+					if gg, ok := st.Addr.(*ssa.Global); ok {
+						c.ob(rule, fnKey(f)+"#request-path-writes-global:"+gg.Name(), ins.Pos(), false, "the compiled request path writes package variable "+gg.Name())
+					}
+				}
+				if call, ok := ins.(ssa.CallInstruction); ok {
+					if callName(call) == "sync.Once.Do" || callName(call) == "sync.Pool.Get" || callName(call) == "sync.Pool.Put" {
+						if derivesFrom(call.Common().Args[0], func(v ssa.Value) bool { _, ok := v.(*ssa.Global); return ok }) {
+							c.ob(rule, fnKey(f)+"#request-path-uses-package-level-"+strings.TrimPrefix(callName(call), "sync."), ins.Pos(), false, "the compiled request path keeps state across requests (and across module reloads) in a package-level sync.Once/Pool: a value computed for one module load or request is reused for another")
+						}
+					}
+					visit(staticFn(call), d+1)
+				}
+			})
+		}
+		visit(cl, 0)
 	}
 }
